@@ -2,12 +2,13 @@
 (* One Tahoe-LAFS storage server (allmydata/storage/server.py, immutable.py,
    mutable.py, lease.py) as operators over an explicit state value S.
 
-   S == [imm, mut, clock, free, readonly]
+   S == [imm, mut, clock, capacity, reserved, readonly]
      imm[si][sh]  immutable bucket: absent -> incoming -> final | absent
      mut[si][sh]  mutable share: growable byte array + write enabler
      clock        the server's clock (seconds)
-     free         what fileutil.get_available_space() reports (already net of
-                  the configured reserved_space), chosen by the environment
+     capacity     size of the (simulated) disk, chosen by the environment; the disk's
+                  free space is capacity minus the share bytes actually written
+     reserved     the configured reserved_space
      readonly     readonly_storage
 
    Every public entry point of the server is one operator  XxxRes(S, args)
@@ -34,7 +35,7 @@ AddOrRenew(L, rs, cs, exp) == IF HasLease(L, rs) THEN RenewIn(L, rs, exp) ELSE L
 
 (* ------------------------- immutable buckets ---------------------------- *)
 AbsentB == [st |-> "absent", size |-> 0, written |-> {}, data |-> <<>>, leases |-> {},
-            wid |-> "none", conn |-> "none", deadline |-> 0]
+            wid |-> "none", conn |-> "none", deadline |-> 0, used |-> 0]
 
 Incoming(S) == {<<si, sh>> \in UNION {{<<i, s>> : s \in DOMAIN S.imm[i]} : i \in DOMAIN S.imm} :
                    S.imm[si][sh].st = "incoming"}
@@ -42,31 +43,56 @@ Incoming(S) == {<<si, sh>> \in UNION {{<<i, s>> : s \in DOMAIN S.imm[i]} : i \in
 RECURSIVE SumSizes(_, _)
 SumSizes(S, P) == IF P = {} THEN 0
                   ELSE LET p == CHOOSE q \in P : TRUE IN S.imm[p[1]][p[2]].size + SumSizes(S, P \ {p})
+\* the two ends of any sound accounting of the uploads in progress: what they were promised
+\* (Full, what StorageServer.allocated_size() reports today) and what they can still consume (Need)
 InProgress(S) == SumSizes(S, Incoming(S))
+Full(S) == InProgress(S)
+RECURSIVE SumNeed(_, _)
+SumNeed(S, P) == IF P = {} THEN 0
+                 ELSE LET p == CHOOSE q \in P : TRUE
+                      IN (S.imm[p[1]][p[2]].size - Cardinality(S.imm[p[1]][p[2]].written)) + SumNeed(S, P \ {p})
+Need(S) == SumNeed(S, Incoming(S))
 
-AvailableSpace(S) == IF S.readonly THEN 0 ELSE S.free
+\* the simulated disk: share bytes actually written (sparse files: holes cost nothing)
+AllBuckets(S) == UNION {{<<i, s>> : s \in DOMAIN S.imm[i]} : i \in DOMAIN S.imm}
+RECURSIVE SumUsed(_, _)
+SumUsed(S, P) == IF P = {} THEN 0
+                 ELSE LET p == CHOOSE q \in P : TRUE
+                          b == S.imm[p[1]][p[2]]
+                      IN (IF b.st = "incoming" THEN Cardinality(b.written) ELSE b.used) + SumUsed(S, P \ {p})
+Used(S) == SumUsed(S, AllBuckets(S))
+\* fileutil.get_available_space(sharedir, reserved_space), 0 for a read-only server
+AvailableSpace(S) == IF S.readonly THEN 0 ELSE Max(0, S.capacity - Used(S) - S.reserved)
 
 FinalShares(S, si) == {sh \in DOMAIN S.imm[si] : S.imm[si][sh].st = "final"}
 
 \* shares of the request that could get a new BucketWriter
 AllocCandidates(S, si, shnums) == {sh \in shnums : S.imm[si][sh].st = "absent"}
-\* how many new buckets of `size` fit: remaining = available - allocated_size(), each accepted
-\* bucket takes `size` more
+\* how many new buckets of `size` must at least be accepted: those that fit even when every upload
+\* in progress is charged its full allocated size (the code's accounting: remaining = available -
+\* allocated_size(), each accepted bucket takes `size` more).  A server refusing these would not be
+\* releasing reservations.
 AllocCount(S, si, shnums, size) ==
-  LET rem == AvailableSpace(S) - InProgress(S)
+  LET rem == AvailableSpace(S) - Full(S)
       fit == IF rem < size THEN 0 ELSE IF size = 0 THEN Cardinality(AllocCandidates(S, si, shnums)) ELSE rem \div size
   IN Min(Cardinality(AllocCandidates(S, si, shnums)), fit)
 
+\* C28, the statement itself: what is accepted, together with what the uploads in progress can still
+\* consume, fits in the available space.  Any accounting between Need and Full satisfies both bounds.
+C28_NoOvercommit(S, size, allocated) ==
+  allocated # {} => Need(S) + size * Cardinality(allocated) <= AvailableSpace(S)
+
 \* the answer must name all final shares, and a set of new buckets that is a subset of the
-\* candidates of exactly the size that fits (which of them is the iteration order's business)
+\* candidates (which of them is the iteration order's business), at least as many as fit under
+\* the conservative accounting and never more than fit at all
 AllocResOK(S, si, shnums, size, already, allocated) ==
   /\ already = FinalShares(S, si)
   /\ allocated \subseteq AllocCandidates(S, si, shnums)
-  /\ Cardinality(allocated) = AllocCount(S, si, shnums, size)
+  /\ Cardinality(allocated) >= AllocCount(S, si, shnums, size)
+  /\ C28_NoOvercommit(S, size, allocated)
 
-\* C28, the statement itself, independent of how AllocCount is computed
-C28_NoOvercommit(S, size, allocated) ==
-  allocated # {} => InProgress(S) + size * Cardinality(allocated) <= AvailableSpace(S)
+\* what allocated_size() may report: between what the uploads can still consume and what they were promised
+InProgressReportOK(S, n) == Need(S) <= n /\ n <= Full(S)
 
 \* adding a lease to an existing share needs room for the lease record
 AllocNeedsLeaseSpace(S, si, rs) ==
@@ -77,7 +103,7 @@ Allocate(S, si, rs, cs, size, conn, wids) ==
   LET exp == S.clock + LeaseDuration
       newb(sh) == [st |-> "incoming", size |-> size, written |-> {}, data |-> Zeros(size),
                    leases |-> {Lease(rs, cs, exp)}, wid |-> wids[sh], conn |-> conn,
-                   deadline |-> S.clock + BucketTimeout]
+                   deadline |-> S.clock + BucketTimeout, used |-> 0]
       upd(sh) == LET b == S.imm[si][sh] IN
                  IF sh \in DOMAIN wids THEN newb(sh)
                  ELSE IF b.st = "final" THEN [b EXCEPT !.leases = AddOrRenew(@, rs, cs, exp)]
@@ -104,7 +130,7 @@ Write(S, wid, off, data) ==
                    [touched EXCEPT !.written = @ \cup Span(off, Len(data)),
                                    !.data = [i \in 1..b.size |-> IF (i - 1) \in Span(off, Len(data)) THEN data[i - off] ELSE b.data[i]]]]
 
-Finalize(b) == [b EXCEPT !.st = "final", !.written = {}, !.wid = "none", !.conn = "none", !.deadline = 0]
+Finalize(b) == [b EXCEPT !.st = "final", !.used = Cardinality(b.written), !.written = {}, !.wid = "none", !.conn = "none", !.deadline = 0]
 
 CloseRes(S, wid) == IF WriterAt(S, wid) = {} THEN "closed" ELSE "ok"
 Close(S, wid) ==
